@@ -183,6 +183,9 @@ func (g *gen) desc(k int, kind byte, valid bool) *op {
 	case 'E':
 		d := &mp4.Dec3Box{DataRate: uint16(r.Intn(8192))}
 		n := r.Range(1, 2)
+		if r.Intn(3) == 0 {
+			n = r.Range(1, 8) // the box counts up to 8 substreams
+		}
 		if !valid && r.Intn(3) == 0 {
 			n = 0
 		}
@@ -191,6 +194,9 @@ func (g *gen) desc(k int, kind byte, valid bool) *op {
 				ACMod: byte(r.Intn(8)), LFEOn: byte(r.Intn(2))}
 			if r.Intn(2) == 0 {
 				s.NumDepSub = byte(r.Range(1, 3))
+				if r.Intn(4) == 0 {
+					s.NumDepSub = byte(r.Range(1, 15))
+				}
 				s.ChanLoc = uint16(r.Intn(512))
 			} else if !valid && r.Intn(4) == 0 {
 				s.ChanLoc = uint16(r.Intn(512)) // ignored when NumDepSub == 0
